@@ -296,6 +296,41 @@ def variants(only, kinds):
     return out
 
 
+def fn_rename_variants(only):
+    """Every private function / method (one leading underscore, defined once in the package) renamed, with all its references."""
+    srcs = {p.name: p.read_text() for p in sorted(PKG.glob("*.py"))}
+    trees = {n: ast.parse(s) for n, s in srcs.items()}
+    defs = {}
+    for n, t in trees.items():
+        for x in ast.walk(t):
+            if isinstance(x, ast.FunctionDef) and x.name.startswith("_") and not x.name.startswith("__"):
+                defs.setdefault(x.name, []).append(n)
+    out = []
+    for name, where in sorted(defs.items()):
+        if len(where) != 1 or (only and where[0][:-3] not in only):
+            continue
+        new = name + "_rn"
+        over = {}
+        for n, t0 in trees.items():
+            if name not in srcs[n]:
+                continue
+            t = copy.deepcopy(t0)
+            hit = False
+            for x in ast.walk(t):
+                if isinstance(x, ast.FunctionDef) and x.name == name:
+                    x.name = new; hit = True
+                elif isinstance(x, ast.Name) and x.id == name:
+                    x.id = new; hit = True
+                elif isinstance(x, ast.Attribute) and x.attr == name:
+                    x.attr = new; hit = True
+                elif isinstance(x, ast.alias) and x.name == name:
+                    x.name = new; hit = True
+            if hit:
+                over[f"hvsrpy/{n}"] = ast.unparse(t)
+        out.append((f"fnrename:{where[0][:-3]}.{name}", over))
+    return out
+
+
 def run(job):
     label, rel, new_src, pid = job
     os.environ["HVSA_EVIDENCE_DIR"] = "/tmp/hvsa_eval_evidence"
@@ -304,7 +339,7 @@ def run(job):
     buf = io.StringIO()
     t = time.time()
     with contextlib.redirect_stdout(buf):
-        viol, errs = run_variant(pid, Variant(label, "N", {rel: new_src}))
+        viol, errs = run_variant(pid, Variant(label, "N", new_src if isinstance(new_src, dict) else {rel: new_src}))
     res = "silent" if not viol and not errs else ("FALSE-ALARM" if viol else "UNDECIDED")
     return (label, pid, res, "; ".join((viol + errs)[:2])[:300], time.time() - t)
 
@@ -322,7 +357,9 @@ if __name__ == "__main__":
         if a == "--limit":
             limit = int(sys.argv[i + 1])
     kinds = kinds or ["rename", "rettemp"]
-    vs = variants(only, kinds)
+    vs = variants(only, [k for k in kinds if k != "fnrename"])
+    if "fnrename" in kinds:
+        vs += [(lab, None, over) for lab, over in fn_rename_variants(only)]
     if limit:
         vs = vs[:limit]
     props = at or [f"C{i:02d}" for i in range(1, 21)]
